@@ -599,7 +599,18 @@ func (fr *Frame) callWithContract(st *State, c *FuncContract, fn *ssa.Function, 
 	env.old = pre
 	env.evBase = pre.events
 	x.vc.pcNow = st.pc
+	abstracted := false
+	if top := x.top; top != nil && top.contract != nil && top.contract.Abstract != nil {
+		sn := short
+		if i := strings.LastIndex(sn, "."); i >= 0 {
+			sn = sn[i+1:]
+		}
+		abstracted = top.contract.Abstract[sn]
+	}
 	for _, e := range c.Ensures {
+		if abstracted {
+			break // the function under verification asked not to use this callee's postconditions
+		}
 		g, err := env.assuming().evalBool(e.Expr)
 		if err != nil {
 			x.vc.diag("%s: ensures of %s: %v", fr.fn.String(), name, err)
